@@ -341,6 +341,26 @@ func TestC03(t *testing.T) {
 				classes = append(classes, "sorted-changed-sorted-again")
 			}
 		}
+		// the sorted result sorted again with the flags of its first key flipped (same columns, another order)
+		if rapid.IntRange(0, 3).Draw(t, "refollow") == 0 && len(orders) > 0 {
+			orders2 := append([]hx.Order(nil), orders...)
+			if rapid.Bool().Draw(t, "fliprev") {
+				orders2[0].Reverse = !orders2[0].Reverse
+			} else {
+				orders2[0].NullLast = !orders2[0].NullLast
+			}
+			r2 := res
+			if perr := hx.Safely(func() { r2 = res.Sort(hx.BuildOrders(orders2)...) }); perr != nil || r2.Err != nil {
+				t.Fatalf("Sort of the sorted frame: panic %v, Err %v\n%s", perr, r2.Err, desc())
+			}
+			g2, err := hx.Observe(r2)
+			if err != nil {
+				t.Fatalf("observe: %v\n%s", err, desc())
+			}
+			if msg := checkSorted(hx.WithEnumDecl(got, in), g2, orders2); msg != "" {
+				t.Fatalf("the sorted frame sorted again by %s: %s\n%s", hx.OrdersString(orders2), msg, desc())
+			}
+		}
 		// sorting must not have disturbed the receiver
 		again, err := hx.Observe(d.QF)
 		if err != nil || hx.Diff(in, again) != "" {
